@@ -319,6 +319,41 @@ def guard_rules(ctx, facts, rep, rule="C08-GUARD"):
         v = norm(exr.operand(lf[0][1]["args"][1], (lf[0][0], None)))
         toks = tokens(v)
         good = v[0] == "bin" and v[1] == "Gt" and v[3][0] in ("named", "const") and v[3][2] == bthr and "compressed_size()" in toks and "size()" in toks and "max()" in toks
+        if not good:
+            # the same predicate spelled with a short-circuit (`c > T || u > T`): decide it as a truth table over the paths that
+            # reach the setter -- the flag handed over must equal (compressed > T) OR (uncompressed > T) on every one of them
+            from engine.paths import paths as _paths
+            A_C = re.compile(r"^Gt\(ZipFile::compressed_size\(file\), %d\)$" % bthr)
+            A_U = re.compile(r"^Gt\(ZipFile::size\(file\), %d\)$" % bthr)
+            rows, bad = 0, []
+            for p in _paths(rc, max_paths=20000):
+                idx = [i for i, e in enumerate(p["effects"]) if e[1] == "write::FileOptions::large_file"]
+                if not idx:
+                    continue
+                i = idx[0]
+                dec = {}
+                for (a_, v_), pos_ in zip(p["decisions"], p["dpos"]):
+                    if a_ != "#iter" and pos_ <= p["epos"][i] and v_ in (0, 1):
+                        if A_C.match(a_):
+                            dec["c"] = v_
+                        elif A_U.match(a_):
+                            dec["u"] = v_
+                cst = p["econst"][i][1] if len(p["econst"][i]) > 1 else None
+                arg = show(p["effects"][i][2][1]) if len(p["effects"][i][2]) > 1 else ""
+                rows += 1
+                if cst is not None:
+                    val = bool(cst)
+                    want = (dec.get("c") == 1 or dec.get("u") == 1) if val else (dec.get("c") == 0 and dec.get("u") == 0)
+                    if not want:
+                        bad.append((cst, dec))
+                else:
+                    # the flag is the remaining comparison: the other operand of the OR was decided false on this path
+                    e_ = p["effects"][i][2][1] if len(p["effects"][i][2]) > 1 else None
+                    rest = [show(a_) for a_ in alts(e_) if a_[0] != "const"] if e_ is not None else []
+                    if rest and (dec.get("c") == 0 and all(A_U.match(r_) for r_ in rest) or dec.get("u") == 0 and all(A_C.match(r_) for r_ in rest)):
+                        continue
+                    bad.append((arg[:60], dec))
+            good = rows >= 2 and not bad
         ok &= rep.check(good, rule, "raw-copy:large_file", where(rc, lf[0][1]["span"]), "large_file = max(compressed, uncompressed) > 0xFFFFFFFF",
                         "raw copy sets large_file from %s; both the compressed and the uncompressed size must be considered" % show(v))
     return ok
